@@ -69,6 +69,8 @@ class CSSRule(cssutils.util.Base2):
         self._parentStyleSheet = parentStyleSheet
         self._setSeq(self._tempSeq())
         # self._atkeyword = None
+        # literal keyword as found in the source, None if the rule was not parsed
+        self._keyword = None
         # must be set after initialization of #inheriting rule is done
         self._readonly = False
 
